@@ -124,7 +124,9 @@ def judge(dtm, ref, fen, lines, best, three_men):
         zone = "draw"
         if got_kind != "cp":
             v.append(("mate-score-on-drawn-root", "%s -> %s" % (fen, last.group(0))))
-        if succ and succ[0] == "win":
+        # a successor that is won for the opponent on the board is a loss only if that win can be completed before the 50-move limit
+        # (the table knows nothing about the clock: with clock 97 a 'win in 13' through a capture on the way cannot be judged here)
+        if succ and succ[0] == "win" and 2 * succ[1] - 1 <= 100 - (hmc + 1):
             v.append(("draw-turned-into-loss", "%s bestmove %s (successor is won for the opponent in %d)" % (fen, mv, succ[1])))
     elif p <= r:
         want = n if kind == "win" else -n
